@@ -10,10 +10,12 @@ structure DSt where
   w : World
   phase : Nat          -- number of template lines accepted so far (0..7); 7 = writer exists
   wtl : Bool           -- the writer offers TRANSIENT_LOCAL durability (only used for the request/offered check)
+  t0 : Bool            -- the optional topic t0 of the idle first writer w0 exists
+  bg : Bool            -- a `write-bg` call is outstanding
   bad : Bool           -- a line was refused: the rest of the case is not predicted
 deriving Repr
 
-def initSt : DSt := { w := World.init, phase := 0, wtl := false, bad := false }
+def initSt : DSt := { w := World.init, phase := 0, wtl := false, t0 := false, bg := false, bad := false }
 
 def PFX : String := "b1b2b3b4a1a2a3a4"
 
@@ -93,7 +95,7 @@ def showMsg : Msg → String
 
 def showTrace (e : TraceE) : String := s!"t={e.t} {showMsg e.msg} {e.fate}"
 
-def showChange (c : Change) : String := s!"{c.key}:{c.val}@{c.ts}"
+def showChange (c : Change) : String := if c.alive then s!"{c.key}:{c.val}@{c.ts}" else s!"{c.key}:-@{c.ts}"
 
 def keyEq (k : Nat) (c : Change) : Bool := c.key == k
 def keyNe (k : Nat) (c : Change) : Bool := c.key != k
@@ -109,6 +111,17 @@ def showReply : Reply → String
 
 def BLOCK_FUEL : Nat := 4000       -- worker iterations a blocked write may take (200 s of virtual time)
 def MAX_TIME : Int := 90000000000  -- scenarios stay below the 100 s participant lease
+
+def T0_HANDLE : String := "000000000001000a"          -- second topic of participant P1
+def W_SECOND_HANDLE : String := "0000000000010002"    -- second writer of publisher pub
+
+def parseTs (rest : List String) : Option (Option Int) :=
+  match rest with
+  | [] => some none
+  | [t] => (match t.splitOn "=" with
+    | ["ts", x] => (x.toInt?).map some
+    | _ => none)
+  | _ => none
 
 def refuse (s : DSt) : DSt × String := ({ s with bad := true }, "bad-op")
 
@@ -138,12 +151,20 @@ def step (s : DSt) (line : String) : DSt × String :=
   | ["topic", "t2", "P2", "T", "ki"] => template s 3 "010000000000000a"
   | ["publisher", "pub", "P1"] => template s 4 "0000000000000008"
   | ["subscriber", "sub", "P2"] => template s 5 "0100000000000009"
+  | ["topic", "t0", "P1", "T0", "ki"] =>
+    -- optional: the topic of an idle first writer (two writers in one participant, C29)
+    if s.phase != 6 || s.t0 || s.w.now != 0 then refuse s else ({ s with t0 := true }, "ok " ++ PFX ++ T0_HANDLE)
+  | "writer" :: "w0" :: "pub" :: "t0" :: qos =>
+    if s.phase != 6 || !s.t0 || s.w.wr0.isSome || s.w.now != 0 then refuse s else
+    (match parseWriterQos qos with
+     | some (q, _) => ({ s with w := { s.w with wr0 := some (St.init q), lastWake := 0 } }, "ok " ++ PFX ++ "0000000000000002")
+     | none => refuse s)
   | "writer" :: "w" :: "pub" :: "t1" :: qos =>
-    if s.phase != 6 || s.w.now != 0 then refuse s else
+    if s.phase != 6 || s.w.now != 0 || (s.t0 && s.w.wr0.isNone) then refuse s else
     (match parseWriterQos qos with
      | some (q, tl) =>
        ({ s with phase := 7, wtl := tl, w := { s.w with wr := some (St.init q), lastWake := 0 } },
-        "ok " ++ PFX ++ "0000000000000002")
+        "ok " ++ PFX ++ (if s.w.wr0.isSome then W_SECOND_HANDLE else "0000000000000002"))
      | none => refuse s)
   | "reader" :: "r" :: "sub" :: "t2" :: qos =>
     if s.phase != 7 || s.w.rd.isSome then refuse s else
@@ -160,13 +181,8 @@ def step (s : DSt) (line : String) : DSt × String :=
   if s.phase != 7 then refuse s else
   match ts with
   | "write" :: "w" :: k :: v :: rest =>
-    let tsOpt : Option (Option Int) := match rest with
-      | [] => some none
-      | [t] => (match kv [t] "ts" with
-        | some x => (x.toInt?).map some
-        | none => none)
-      | _ => none
-    (match k.toNat?, v.toInt?, tsOpt with
+    if s.bg then refuse s else
+    (match k.toNat?, v.toInt?, parseTs rest with
      | some k, some v, some tso =>
        let ts := tso.getD s.w.now
        -- DataWriterAsync::write asks the participant for the current time first (one more mail), write_w_timestamp does not
@@ -179,6 +195,32 @@ def step (s : DSt) (line : String) : DSt × String :=
            | none => refuse s)
         | none => refuse s)
      | _, _, _ => refuse s)
+  | "write-bg" :: "w" :: k :: v :: rest =>
+    -- dsim ext2 w2c: the same mails as `write`, the world settles at the current time, the call stays outstanding
+    if s.bg then refuse s else
+    (match k.toNat?, v.toInt?, parseTs rest with
+     | some k, some v, some tso =>
+       let ts := tso.getD s.w.now
+       let w0 := if tso.isNone then s.w.call .api else s.w
+       let w1 := (({ w0 with reply := none }).iterate (some (.write k v ts))).settle SETTLE_FUEL
+       ({ s with w := w1, bg := true }, "ok")
+     | _, _, _ => refuse s)
+  | ["join"] =>
+    if !s.bg then refuse s else
+    (match s.w.blockUntilReply BLOCK_FUEL with
+     | some w2 =>
+       (match w2.reply with
+        | some r => ({ s with w := { w2 with reply := none }, bg := false }, showReply r)
+        | none => refuse s)
+     | none => refuse s)
+  | "unregister" :: "w" :: k :: rest =>
+    (match k.toNat?, parseTs rest with
+     | some k, some tso =>
+       let ts := tso.getD s.w.now
+       let w0 := if tso.isNone then s.w.call .api else s.w
+       let w1 := w0.call (.unregister k ts)
+       ({ s with w := w1 }, if w1.lastUnreg then "ok" else "err:BadParameter")
+     | _, _ => refuse s)
   | ["lookup", "w", k] =>
     (match k.toNat?, s.w.wr with
      | some k, some _ =>
